@@ -1213,3 +1213,139 @@ Proof.
   rewrite <- (dfs_check_circular_iff name_eqb succ name_eqb_eq (mkeys m) Hcl (S (length m)) n Hlen Hn).
   unfold check_include_cycles. destruct (dfs_check name_eqb succ (S (length m)) n); split; congruence.
 Qed.
+
+(* ================================================================== termination of rendering *)
+
+Lemma mul_lt_helper a b B x y : a < b -> x < B -> a * B + x < b * B + y.
+Proof. intros H1 H2. nia. Qed.
+
+Section Term.
+  Variable pre : list name.
+  Variable s : state.
+  Variable R : name -> nat.              (* include rank of a template *)
+  Variable K : name -> bnode -> nat.     (* rank in the block graph of a template *)
+  Variables N1 B : nat.
+
+  Definition parents_s (v : name) : list name :=
+    match mfind v (st_tpls s) with Some e => e_parents e | None => [] end.
+
+  Hypothesis H_inc_main : forall v w ew n u,
+    (w = v \/ In w (parents_s v)) -> mfind w (st_tpls s) = Some ew ->
+    In (OInclude n) (td_main (e_desc ew)) -> resolve pre (st_tpls s) n = Some u -> R u < R v.
+  Hypothesis H_inc_blk : forall v b chs l ch n u,
+    lineage_of s v b = Some chs -> nth_error chs l = Some ch ->
+    In (OInclude n) ch -> resolve pre (st_tpls s) n = Some u -> R u < R v.
+  Hypothesis H_blk : forall v b chs l ch b' chs',
+    lineage_of s v b = Some chs -> nth_error chs l = Some ch ->
+    In (OBlock b') ch -> lineage_of s v b' = Some chs' -> chs' <> [] -> K v (b', 0) < K v (b, l).
+  Hypothesis H_sup : forall v b chs l ch,
+    lineage_of s v b = Some chs -> nth_error chs l = Some ch ->
+    In OSuper ch -> S l < length chs -> K v (b, S l) < K v (b, l).
+  Hypothesis HRb : forall v, R v <= N1.
+  Hypothesis HKb : forall v x, K v x + 2 <= B.
+
+  Definition span : nat := (N1 + 1) * B + 1.
+  Definition rho (f : frame) : nat :=
+    match f with
+    | FComp _ _ => (N1 + 1) * B
+    | FMain v _ => R v * B + (B - 1)
+    | FBlk v b l => R v * B + K v (b, l)
+    end.
+  Definition mu (d : nat) (f : frame) : nat := (max_comp_depth - d) * span + rho f.
+
+  Definition valid (f : frame) : Prop :=
+    match f with
+    | FMain v w => w = v \/ In w (parents_s v)
+    | FBlk v b l => exists chs, lineage_of s v b = Some chs /\ l < length chs
+    | FComp _ _ => True
+    end.
+
+  Lemma rho_lt_span f : rho f < span.
+  Proof.
+    unfold span. destruct f as [v w|v b l|v c]; simpl.
+    - pose proof (HRb v). pose proof (HKb v (v, 0)). nia.
+    - pose proof (HRb v). pose proof (HKb v (b, l)). nia.
+    - lia.
+  Qed.
+
+  (* every call goes to a valid frame of strictly smaller measure *)
+  Lemma callee_decreases d f ch o d' f' :
+    valid f -> d <= max_comp_depth -> frame_chunk s f = Some ch -> In o ch ->
+    callee pre s d f o = Some (Some (d', f')) ->
+    valid f' /\ mu d' f' < mu d f /\ d' <= max_comp_depth.
+  Proof.
+    intros Hv Hd Hch Hin Hc. destruct o as [i|n|b| |c]; cbn [callee] in Hc.
+    - discriminate.
+    - (* include: the included template's own main chunk *)
+      destruct (resolve pre (st_tpls s) n) as [u|] eqn:Er; [|discriminate].
+      injection Hc as <- <-. split; [simpl; auto|].
+      assert (rho (FMain u u) < rho f) as Hlt.
+      { destruct f as [v w|v b l|v c]; simpl in *.
+        - destruct (mfind w (st_tpls s)) as [ew|] eqn:Ew; [|discriminate]. injection Hch as <-.
+          pose proof (H_inc_main v w ew n u Hv Ew Hin Er). pose proof (HKb v (v, 0)).
+          apply mul_lt_helper; auto. lia.
+        - destruct Hv as (chs & Hl & Hlen). rewrite Hl in Hch.
+          pose proof (H_inc_blk v b chs l ch n u Hl Hch Hin Er). pose proof (HKb v (b, l)).
+          apply mul_lt_helper; auto. lia.
+        - pose proof (HRb u). pose proof (HKb u (u, 0)). nia. }
+      unfold mu. split; [lia|exact Hd].
+    - (* RenderBlock *)
+      destruct (lineage_of s (frame_vm f) b) as [[|c0 chs']|] eqn:El; try discriminate.
+      injection Hc as <- <-. split; [simpl; exists (c0 :: chs'); split; [auto|simpl; lia]|].
+      assert (rho (FBlk (frame_vm f) b 0) < rho f) as Hlt.
+      { destruct f as [v w|v b0 l|v c]; simpl in *.
+        - pose proof (HKb v (b, 0)). lia.
+        - destruct Hv as (chs & Hl & Hlen). rewrite Hl in Hch.
+          assert (c0 :: chs' <> []) as Hne by discriminate.
+          pose proof (H_blk v b0 chs l ch b (c0 :: chs') Hl Hch Hin El Hne). lia.
+        - pose proof (HRb v). pose proof (HKb v (b, 0)). nia. }
+      unfold mu. split; [lia|exact Hd].
+    - (* super() *)
+      destruct f as [v w|v b l|v c]; try discriminate.
+      destruct (lineage_of s v b) as [chs|] eqn:El; [|discriminate].
+      destruct (S l <? length chs) eqn:Elt; [|discriminate].
+      apply Nat.ltb_lt in Elt. injection Hc as <- <-.
+      split; [simpl; exists chs; auto|].
+      simpl in Hch. rewrite El in Hch.
+      pose proof (H_sup v b chs l ch El Hch Hin Elt).
+      unfold mu. simpl. split; [lia|exact Hd].
+    - (* component call: one level deeper *)
+      destruct (max_comp_depth <=? d) eqn:Ed; [discriminate|].
+      apply Nat.leb_gt in Ed.
+      destruct (comp_chunk s (frame_vm f) c); [|discriminate].
+      injection Hc as <- <-. split; [exact I|]. split; [|lia].
+      unfold mu. simpl rho at 1. pose proof (rho_lt_span f).
+      assert (max_comp_depth - d = S (max_comp_depth - S d)) as -> by lia.
+      unfold span in *. lia.
+  Qed.
+
+  Lemma exec_ops_fuel rec d f ch :
+    valid f -> d <= max_comp_depth -> frame_chunk s f = Some ch ->
+    (forall d' f', valid f' -> d' <= max_comp_depth -> mu d' f' < mu d f -> rec d' f' <> ROutOfFuel) ->
+    forall ops acc, incl ops ch -> exec_ops rec pre s d f ops acc <> ROutOfFuel.
+  Proof.
+    intros Hv Hd Hch Hrec. induction ops as [|o ops IH]; intros acc Hincl; simpl; [discriminate|].
+    assert (incl ops ch) as Hincl' by (intros z Hz; apply Hincl; simpl; auto).
+    assert (In o ch) as Hin by (apply Hincl; simpl; auto).
+    destruct o as [i|n|b| |c]; [apply IH; auto| | | |];
+      (destruct (callee pre s d f _) as [[[d' f']|]|] eqn:Ec;
+       [ destruct (callee_decreases _ _ _ _ _ _ Hv Hd Hch Hin Ec) as (V1 & V2 & V3);
+         pose proof (Hrec d' f' V1 V3 V2) as Hne;
+         destruct (rec d' f'); [apply IH; auto|discriminate|congruence]
+       | apply IH; auto
+       | discriminate ]).
+  Qed.
+
+  Theorem exec_terminates : forall fuel d f,
+    valid f -> d <= max_comp_depth -> mu d f < fuel -> exec fuel pre s d f <> ROutOfFuel.
+  Proof.
+    induction fuel as [|k IH]; intros d f Hv Hd Hmu; [lia|].
+    simpl. destruct (frame_chunk s f) as [ch|] eqn:Ech; [|discriminate].
+    eapply exec_ops_fuel; eauto.
+    - intros d' f' V1 V3 V2. apply IH; auto. lia.
+    - apply incl_refl.
+  Qed.
+
+  Lemma mu_bound d f : mu d f < S (S max_comp_depth * span).
+  Proof. unfold mu. pose proof (rho_lt_span f). nia. Qed.
+End Term.
